@@ -474,6 +474,17 @@ func Payload(t *rapid.T, k string, small bool) model.Payload {
 			if rapid.Bool().Draw(t, "cert.x509") {
 				p.Cert.Encoding = 4
 			}
+		} else if k == model.KCERTREQ && rapid.IntRange(0, 3).Draw(t, "certreq.hashes") == 3 {
+			// a certificate request is a list of 20-octet hashes of trust anchors: some of them listed twice
+			var hs []model.Bytes
+			for i := rapid.IntRange(1, 3).Draw(t, "certreq.n"); i > 0; i-- {
+				hs = append(hs, Fill(t, "certreq.hash", 20))
+			}
+			p.Cert.Data = nil
+			for i := rapid.IntRange(2, 6).Draw(t, "certreq.len"); i > 0; i-- {
+				p.Cert.Data = append(p.Cert.Data, hs[rapid.IntRange(0, len(hs)-1).Draw(t, "certreq.pick")]...)
+			}
+			p.Cert.Encoding = rapid.SampledFrom([]uint8{4, 4, 4, 12, 13}).Draw(t, "certreq.enc")
 		} else if rapid.IntRange(0, 5).Draw(t, "cert.der") == 5 {
 			p.Cert.Data = DERLike(t, "cert.der")
 			if rapid.IntRange(0, 3).Draw(t, "cert.x509") != 0 {
